@@ -12,7 +12,7 @@ use crate::exch::{ExchCfg, Gate, Menu, ServerMsg};
 use crate::exch_run::{replay_exchange, run_exchanges};
 use crate::refmodel::chunked::{encode, ChunkSpec};
 
-pub const RULE: &str = "codings by construction: chunks of size {1,2,3} x payload pattern {letters, starts with CRLF, ends with CR, starts with LF} x size spelling {plain, leading zero, extension}, last-chunk spelling {0,000,0;x}, 0..2 trailers, size lines of exactly 20 and 19 bytes (the decoder's documented limit), a 130-byte trailer line, trailer field names that look like a status line / last chunk / framing header (HTTP2-Settings, HTTP, 0, Content-Length, Transfer-Encoding), obs-text in quoted chunk-extension values and trailer values, the coding announced by Transfer-Encoding spellings {chunked, Chunked, 'gzip, chunked', 'chunked,', 'gzip,chunked, ,', ', chunked', 'chunked ,TAB'}, also as the answer to an HTTP/1.0 request, next to Connection: close / keep-alive + Content-Length fields, and under statuses 203 / 205 / 404 (incl. a body of the last chunk only), always followed by 'HTTP/1.1 2' which must stay unconsumed; size / last-chunk / trailer lines of every length 1..=17 with the stream ending right after the body, 1 byte later or 8 bytes later; quick: all 1-chunk codings and a pairwise-reduced family of 2-chunk codings, thorough: all codings of <=2 chunks and a reduced family of 3-chunk codings; plus single chunks of size 15,16,255,256,4095,4096 in lower/upper/mixed-case hex with and without leading zero. Per coding and boundary-stop {off,on} the COMPLETE graph over (dechunker state, consumed, arrived): 1-byte arrivals, read with buffers {0,1,2,3,4,large} at every window (large chunks: arrival cuts at every size-line/tail position and data end -1/0/+1/+2, buffers {0,size-1,size,size+1,large} and {1,4} up to 256). plus the same codings (up to 400 bytes) through Call::<RecvBody>::read under boundary stop {off,on} x arrivals {1, 5, all} x buffers {1,3,64} (every other run after an interim 103 was handed out by the same object), with is_on_chunk_boundary() checked after every read (on the flow as well); plus interleaving: all 25 ordered pairs of five chunked responses decoded alternately on one thread (first i steps of one, j steps of the other, then each to its end, for every i, j) with 7-byte arrivals and 3-byte output buffers. distinct = distinct (coding, stop mode, final observation)";
+pub const RULE: &str = "codings by construction: chunks of size {1,2,3} x payload pattern {letters, starts with CRLF, ends with CR, starts with LF} x size spelling {plain, leading zero, extension}, last-chunk spelling {0,000,0;x}, 0..2 trailers, size lines of exactly 20 and 19 bytes (the decoder's documented limit), a 130-byte trailer line, trailer field names that look like a status line / last chunk / framing header (HTTP2-Settings, HTTP, 0, Content-Length, Transfer-Encoding), obs-text in quoted chunk-extension values and trailer values, a trailer value folded over two lines (obs-fold), the coding announced by Transfer-Encoding spellings {chunked, Chunked, 'gzip, chunked', 'chunked,', 'gzip,chunked, ,', ', chunked', 'chunked ,TAB'}, also as the answer to an HTTP/1.0 request, next to Connection: close / keep-alive + Content-Length fields, and under statuses 203 / 205 / 404 (incl. a body of the last chunk only), always followed by 'HTTP/1.1 2' which must stay unconsumed; size / last-chunk / trailer lines of every length 1..=17 with the stream ending right after the body, 1 byte later or 8 bytes later, or followed by a stray CRLF; quick: all 1-chunk codings and a pairwise-reduced family of 2-chunk codings, thorough: all codings of <=2 chunks and a reduced family of 3-chunk codings; plus single chunks of size 15,16,255,256,4095,4096 in lower/upper/mixed-case hex with and without leading zero. Per coding and boundary-stop {off,on} the COMPLETE graph over (dechunker state, consumed, arrived): 1-byte arrivals, read with buffers {0,1,2,3,4,large} at every window (large chunks: arrival cuts at every size-line/tail position and data end -1/0/+1/+2, buffers {0,size-1,size,size+1,large} and {1,4} up to 256). plus the same codings (up to 400 bytes) through Call::<RecvBody>::read under boundary stop {off,on} x arrivals {1, 5, all} x buffers {1,3,64} (every other run after an interim 103 was handed out by the same object), with is_on_chunk_boundary() checked after every read (on the flow as well); plus interleaving: all 25 ordered pairs of five chunked responses decoded alternately on one thread (first i steps of one, j steps of the other, then each to its end, for every i, j) with 7-byte arrivals and 3-byte output buffers. distinct = distinct (coding, stop mode, final observation)";
 
 const PATTERNS: [&[u8]; 4] = [b"abc", b"\r\nx", b"xy\r", b"\nzz"];
 
@@ -177,7 +177,7 @@ pub fn build(tier: Tier) -> Vec<Arc<ExchCfg>> {
         // content of grammar-valid lines: trailer names that look like a status line / a last chunk /
         // a framing header, obs-text in quoted extension values and in trailer values
         let tv = |t: &[&[u8]]| -> Vec<Vec<u8>> { t.iter().map(|x| x.to_vec()).collect() };
-        for trailers in [tv(&[b"HTTP2-Settings: x"]), tv(&[b"HTTP: y", b"T1: v"]), tv(&[b"0: z"]), tv(&[b"Content-Length: 5", b"Transfer-Encoding: chunked"]), tv(&[b"T: caf\xe9 \xff"])] {
+        for trailers in [tv(&[b"HTTP2-Settings: x"]), tv(&[b"HTTP: y", b"T1: v"]), tv(&[b"0: z"]), tv(&[b"Content-Length: 5", b"Transfer-Encoding: chunked"]), tv(&[b"T: caf\xe9 \xff"]), tv(&[b"T: folded\r\n\tcontinuation line", b"U: v"])] {
             out.push(mk_coding(crate::refmodel::chunked::encode_bytes(&[(b"3".to_vec(), b"abc".to_vec())], b"0", &trailers), 3, stop, 0));
         }
         // line lengths of every residue modulo 16 (size line, last-chunk line, trailer line of L bytes), with the stream
@@ -187,7 +187,11 @@ pub fn build(tier: Tier) -> Vec<Arc<ExchCfg>> {
             let size_txt = format!("{:0>w$}", "3", w = l).into_bytes();
             let last = "0".repeat(l).into_bytes();
             let trailers: Vec<Vec<u8>> = if l >= 2 { vec![format!("A:{}", "b".repeat(l - 2)).into_bytes()] } else { vec![] };
-            for tail in [&b""[..], &b"H"[..], &b"HTTP/1.1"[..]] {
+            // (a stray CRLF after the coding belongs to whatever comes next, not to the body)
+            for tail in [&b""[..], &b"H"[..], &b"HTTP/1.1"[..], &b"\r\nHTTP/1.1 2"[..]] {
+                if tail.starts_with(b"\r") && l % 4 != 1 {
+                    continue;
+                }
                 out.push(mk_coding_tail(crate::refmodel::chunked::encode_bytes(&[(size_txt.clone(), b"abc".to_vec())], b"0", &[]), 3, stop, 0, "chunked", "1.1", tail));
                 out.push(mk_coding_tail(crate::refmodel::chunked::encode_bytes(&[(b"3".to_vec(), b"abc".to_vec())], &last, &[]), 3, stop, 0, "chunked", "1.1", tail));
                 out.push(mk_coding_tail(crate::refmodel::chunked::encode_bytes(&[], &last, &trailers), 0, stop, 0, "chunked", "1.1", tail));
